@@ -622,17 +622,17 @@ impl<'cmd> Parser<'cmd> {
         debug!("Parser::possible_long_flag_subcommand: arg={arg:?}");
         if self.cmd.is_infer_subcommands_set() {
             let mut iter = self.cmd.get_subcommands().filter_map(|sc| {
-                sc.get_long_flag().and_then(|long| {
+                if let Some(long) = sc.get_long_flag() {
                     if long.starts_with(arg) {
+                        return Some(sc.get_name());
+                    }
+                }
+
+                sc.get_all_long_flag_aliases().find_map(|alias| {
+                    if alias.starts_with(arg) {
                         Some(sc.get_name())
                     } else {
-                        sc.get_all_long_flag_aliases().find_map(|alias| {
-                            if alias.starts_with(arg) {
-                                Some(sc.get_name())
-                            } else {
-                                None
-                            }
-                        })
+                        None
                     }
                 })
             });
